@@ -49,7 +49,7 @@ pub struct SessionResult {
 const READ_LIMIT: Duration = Duration::from_millis(1500);
 
 fn nocfg() -> RandomCfg {
-    RandomCfg { seg: 4, p_err: 0.0, p_pend: 0.0, wseg: 2, frames_left: 0, max_len: 0, classes: vec![], close_at_end: false, fixed: None }
+    RandomCfg { seg: 4, p_err: 0.0, p_pend: 0.0, wseg: 2, frames_left: 0, max_len: 0, classes: vec![], close_at_end: false, fixed: None, chunk: 0, burst: 0 }
 }
 
 /// bookkeeping shared by all drivers: the frames sent (for result identification) and the events
